@@ -570,6 +570,10 @@ def run(prog, rep, tier):
     rep.rule('CHARGE-valid-compare', 'block charges are compared with valid total charges only')
     if check_valid_compare(prog, rep) < 1:
         raise AnalysisError('CHARGE-valid-compare: comparison in from_ndarray not found')
+    rep.rule('DTYPE-block-store', 'blocks stored into a result tensor with a declared dtype are cast '
+             'to it')
+    if check_block_store_dtype(prog, rep) < 2:
+        raise AnalysisError('DTYPE-block-store: block stores of expm / _eig_worker not found')
     rep.rule('COUPLED-shared-list', 'the list _data, shared with shallow copies, never changes its '
              'length in place (only by re-binding, like _qdata)')
     if check_shared_data_list(prog, rep) < 20:
@@ -872,4 +876,50 @@ def check_valid_compare(prog, rep):
                               '`%s` compares valid block charges with the raw parameter `%s`: an '
                               'equivalent representative of the total charge (e.g. [-2] for Z_3 = '
                               '[1]) matches no block' % (unparse(c)[:60], unparse(other)), c.lineno)
+    return n
+
+
+# ------------------------------------------------------------------ DTYPE-block-store
+def check_block_store_dtype(prog, rep):
+    """DTYPE-block-store: a module-level routine that builds its result tensor X first
+    (`diag(1., leg, dtype=D)`, `zeros(.., D)`) and then replaces blocks `X._data[k] = E` with the
+    output of a numpy / scipy routine must store E in the declared dtype: E is cast
+    (`.astype(X.dtype ..)`, `np.asarray(.., dtype=..)`) or produced with an explicit dtype. The
+    routines return the precision of their INPUT (float32 in -> float32 out), the declaration is
+    fixed before."""
+    m = prog.module(NPC)
+    n = 0
+    for q, f in m.functions.items():
+        if '.' in q:
+            continue
+        made = set()
+        for st in stmts_of(f):
+            if isinstance(st, ast.Assign) and isinstance(st.targets[0], ast.Name) and isinstance(
+                    st.value, ast.Call) and call_name(st.value) in ('diag', 'zeros', 'Array',
+                                                                    'eye_like'):
+                if kwarg(st.value, 'dtype') is not None or len(st.value.args) >= 3:
+                    made.add(st.targets[0].id)
+        for st in stmts_of(f):
+            if not (isinstance(st, ast.Assign) and isinstance(st.targets[0], ast.Subscript) and
+                    isinstance(st.targets[0].value, ast.Attribute) and
+                    st.targets[0].value.attr == '_data' and isinstance(
+                        st.targets[0].value.value, ast.Name) and
+                    st.targets[0].value.value.id in made):
+                continue
+            n += 1
+            v = st.value
+            txt = unparse(v)
+            local_cast = False
+            if isinstance(v, ast.Name):
+                local_cast = any(isinstance(a, ast.Assign) and unparse(a.targets[0]) == v.id and (
+                    'dtype=' in unparse(a.value) or '.astype(' in unparse(a.value))
+                    for a in ast.walk(f))
+            ok = '.astype(' in txt or 'dtype=' in txt or local_cast
+            rep.instance('DTYPE-block-store', {'function': q, 'store': key_text(st)[:60], 'cast': ok})
+            if not ok:
+                rep.violation('DTYPE-block-store', m, q, 'uncast-block:' + txt[:20],
+                              '`%s` stores the output of a numerical routine as a block of a '
+                              'tensor whose dtype was declared before, without casting it: for '
+                              'single-precision input the tensor claims double precision but '
+                              'holds single-precision blocks' % key_text(st)[:60], st.lineno)
     return n
